@@ -379,6 +379,170 @@ fn baton_explore(scripts: &[usize], steps: usize, solo: &[Vec<String>]) -> (u64,
     (schedules, stepcount, found)
 }
 
+/// wp scheduler (see wp.rs): real OS threads; scheduling points = the harness points (before every API call /
+/// iterator step) + every store into the shared objects (phase 1) + every access to a location that was stored
+/// to (phase 2, only when phase 1 saw a store); preemption-bounded DFS.
+fn wp_explore(scripts: &[usize], steps: usize, solo: &[Vec<String>], bound: usize, cap: u64, wall_s: u64) -> Result<Value, String> {
+    use crate::wp;
+    let k = scripts.len();
+    let _ = cache_bytes();
+    let _ = solo; // computed by the caller before any protection is in place
+    let mut found: Option<Mismatch> = None;
+    let mut panic_msg: Option<String> = None;
+    let mut written: std::collections::BTreeSet<usize> = std::collections::BTreeSet::new();
+    let mut mem_sites: std::collections::BTreeSet<usize> = std::collections::BTreeSet::new();
+    let mut watch: Vec<(usize, usize)> = Vec::new();
+    let mut first_grants: Option<String> = None;
+    let mut totals = json!({});
+    for phase in 1..=2 {
+        if phase == 2 {
+            if written.is_empty() || found.is_some() || panic_msg.is_some() {
+                break;
+            }
+            watch = written.iter().map(|o| (*o & !7usize, 8usize)).collect();
+            watch.dedup();
+        }
+        let watch_now = watch.clone();
+        let mut run = |prefix: &[usize]| -> Result<wp::Exec, String> {
+            let (shb, region) = wp::build_in_arena(|| Box::new(build_shared()));
+            let sh: &'static Shared = Box::leak(shb);
+            let sched: &'static wp::Sched = Box::leak(Box::new(wp::Sched::new(k, prefix.to_vec())));
+            wp::set_current(sched as *const wp::Sched as *mut wp::Sched);
+            wp::protect(region, &watch_now);
+            let mut all_done = true;
+            let results: Vec<Result<Vec<String>, String>> = std::thread::scope(|s| {
+                let hs: Vec<_> = scripts
+                    .iter()
+                    .enumerate()
+                    .map(|(ti, &op)| {
+                        s.spawn(move || {
+                            struct Fin(&'static wp::Sched, usize);
+                            impl Drop for Fin {
+                                fn drop(&mut self) {
+                                    self.0.finish(self.1);
+                                }
+                            }
+                            wp::set_thread_id(ti);
+                            let _fin = Fin(sched, ti);
+                            let pause = || {
+                                wp::new_step();
+                                sched.point(ti, wp::Kind::Call);
+                            };
+                            // start point: nothing of the script (e.g. creating an iterator) runs before the first grant
+                            pause();
+                            guarded(|| run_script(op, steps, sh, &pause))
+                        })
+                    })
+                    .collect();
+                all_done = sched.wait_all(std::time::Duration::from_secs(3));
+                hs.into_iter().map(|h| h.join().unwrap_or_else(|_| Err("thread panicked".into()))).collect()
+            });
+            wp::unprotect();
+            wp::set_current(std::ptr::null_mut());
+            let x = sched.into_exec(!all_done);
+            for (_, kd) in &x.grants {
+                if let wp::Kind::Mem { write, off, rip } = kd {
+                    if *write {
+                        written.insert(*off);
+                    }
+                    mem_sites.insert(*rip);
+                }
+            }
+            let order: String = x.grants.iter().map(|(t, kd)| format!("{}{}", (b'A' + *t as u8) as char, match kd { wp::Kind::Call => "".to_string(), wp::Kind::Mem { write: true, off, .. } => format!("[store@{:#x}]", off), wp::Kind::Mem { off, .. } => format!("[load@{:#x}]", off) })).collect::<Vec<_>>().join(" ");
+            if first_grants.is_none() {
+                first_grants = Some(order.clone());
+            }
+            if !x.abandoned && !x.diverged {
+                for (ti, r) in results.iter().enumerate() {
+                    match r {
+                        Ok(obs) => {
+                            if *obs != solo[scripts[ti]] && found.is_none() {
+                                found = Some(Mismatch { scripts: scripts.to_vec(), steps, thread: ti, interleaving: format!("phase {} choices {:?}: {}", phase, x.choices, order), expected: solo[scripts[ti]].clone(), observed: obs.clone() });
+                            }
+                        }
+                        Err(p) => {
+                            if panic_msg.is_none() {
+                                panic_msg = Some(format!("{} (schedule: {})", p, order));
+                            }
+                        }
+                    }
+                }
+            }
+            Ok(x)
+        };
+        // determinism: the default schedule twice, identical grant sequence
+        let a = run(&[])?;
+        let b = run(&[])?;
+        let key = |x: &wp::Exec| x.grants.iter().map(|(t, kd)| (*t, match kd { wp::Kind::Call => (0usize, 0usize), wp::Kind::Mem { write, off, .. } => (1 + usize::from(*write), *off) })).collect::<Vec<_>>();
+        if key(&a) != key(&b) {
+            return Err(format!("the default schedule is not deterministic: {:?} vs {:?}", key(&a), key(&b)));
+        }
+        let st = wp::explore(bound, cap, std::time::Duration::from_secs(wall_s), &mut run)?;
+        totals[format!("phase{}", phase)] = json!({"executions": st.executions, "choice_points": st.choice_points, "mem_points": st.mem_points, "abandoned": st.abandoned, "stuck": st.stuck, "capped": st.capped, "max_preemptions": st.max_preemptions});
+    }
+    let execs = totals["phase1"]["executions"].as_u64().unwrap_or(0) + totals["phase2"]["executions"].as_u64().unwrap_or(0);
+    let cps = totals["phase1"]["choice_points"].as_u64().unwrap_or(0) + totals["phase2"]["choice_points"].as_u64().unwrap_or(0);
+    let mut out = json!({"schedules": execs, "steps": cps, "mismatch": found.as_ref().map(mismatch_case), "wp": totals, "stores_into_shared_objects": written.len(), "mem_sites": mem_sites.len(),
+        "stale_faults": wp::STALE_FAULTS.load(Ordering::Relaxed), "unscheduled_faults": wp::UNSCHEDULED_FAULTS.load(Ordering::Relaxed), "default_schedule": first_grants});
+    if let Some(p) = panic_msg {
+        out["panic"] = json!(p);
+    }
+    Ok(out)
+}
+
+/// wp self-test, part of every run: two threads do `v = n.load(); n.store(v + 1)` on an atomic that lives in the
+/// protected arena. The store must be intercepted (memory points > 0) and the explorer must find the lost update
+/// with one preemption; otherwise the wp scheduler is not working on this machine and no wp result is believed.
+fn wp_canary() -> Result<Value, String> {
+    use crate::wp;
+    use std::sync::atomic::AtomicU32;
+    let mut lost = 0u64;
+    let mut finals: std::collections::BTreeSet<u32> = std::collections::BTreeSet::new();
+    let mut mem = 0u64;
+    let mut run = |prefix: &[usize]| -> Result<wp::Exec, String> {
+        let (cell, region) = wp::build_in_arena(|| Box::new((AtomicU32::new(0), vec![7u8; 5000])));
+        let cell: &'static (AtomicU32, Vec<u8>) = Box::leak(cell);
+        let sched: &'static wp::Sched = Box::leak(Box::new(wp::Sched::new(2, prefix.to_vec())));
+        wp::set_current(sched as *const wp::Sched as *mut wp::Sched);
+        wp::protect(region, &[]);
+        let mut ok = true;
+        std::thread::scope(|s| {
+            for ti in 0..2usize {
+                s.spawn(move || {
+                    struct Fin(&'static wp::Sched, usize);
+                    impl Drop for Fin {
+                        fn drop(&mut self) {
+                            self.0.finish(self.1);
+                        }
+                    }
+                    wp::set_thread_id(ti);
+                    let _fin = Fin(sched, ti);
+                    wp::new_step();
+                    sched.point(ti, wp::Kind::Call);
+                    let v = cell.0.load(Ordering::Relaxed);
+                    cell.0.store(v + 1, Ordering::Relaxed);
+                });
+            }
+            ok = sched.wait_all(std::time::Duration::from_secs(3));
+        });
+        wp::unprotect();
+        wp::set_current(std::ptr::null_mut());
+        let x = sched.into_exec(!ok);
+        mem += x.grants.iter().filter(|(_, k)| matches!(k, wp::Kind::Mem { .. })).count() as u64;
+        let f = cell.0.load(Ordering::Relaxed);
+        finals.insert(f);
+        if f != 2 {
+            lost += 1;
+        }
+        Ok(x)
+    };
+    let st = wp::explore(1, 200, std::time::Duration::from_secs(10), &mut run)?;
+    if mem == 0 || lost == 0 {
+        return Err(format!("wp canary failed: {} executions, {} memory points, final values {:?} (a store into the protected arena was not intercepted, or the lost update was not found)", st.executions, mem, finals));
+    }
+    Ok(json!({"canary_executions": st.executions, "canary_memory_points": mem, "canary_lost_updates_found": lost, "schedules": st.executions, "steps": st.choice_points, "mismatch": null}))
+}
+
 /// child entry point: `pgmc c20-config <shuttle|baton> <steps> <a,b[,c]>`: explore ONE configuration in a
 /// pristine process (so state the subject keeps in statics cannot leak from one configuration into another
 /// and a failing configuration always replays) and print one JSON line
@@ -387,7 +551,20 @@ pub fn config_main(args: &[String]) -> i32 {
     let steps: usize = args.get(1).and_then(|s| s.parse().ok()).unwrap_or(3);
     let scripts: Vec<usize> = args.get(2).map(|s| s.split(',').filter_map(|x| x.parse().ok()).collect()).unwrap_or_default();
     let solo = Arc::new(solo_observations(steps));
-    let out = if mode == "baton" {
+    let out = if mode == "wp-canary" {
+        match wp_canary() {
+            Ok(v) => v,
+            Err(e) => json!({"machinery": e}),
+        }
+    } else if mode == "wp" {
+        let bound: usize = std::env::var("PGMC_WP_BOUND").ok().and_then(|s| s.parse().ok()).unwrap_or(2);
+        let cap: u64 = std::env::var("PGMC_WP_CAP").ok().and_then(|s| s.parse().ok()).unwrap_or(1500);
+        let wall_s: u64 = std::env::var("PGMC_WP_WALL_S").ok().and_then(|s| s.parse().ok()).unwrap_or(8);
+        match wp_explore(&scripts, steps, &solo, bound, cap, wall_s) {
+            Ok(v) => v,
+            Err(e) => json!({"machinery": e}),
+        }
+    } else if mode == "baton" {
         let r = guarded(|| baton_explore(&scripts, steps, &solo));
         match r {
             Ok((n, st, m)) => json!({"schedules": n, "steps": st, "mismatch": m.as_ref().map(mismatch_case)}),
@@ -403,10 +580,13 @@ pub fn config_main(args: &[String]) -> i32 {
     0
 }
 
+/// preemption bound of the wp scheduler for this run (2 quick, 3 thorough; a replay takes it from the case)
+static WP_BOUND: std::sync::atomic::AtomicUsize = std::sync::atomic::AtomicUsize::new(2);
+
 fn run_config(mode: &str, scripts: &[usize], steps: usize) -> Result<Value, String> {
     let exe = std::env::current_exe().map_err(|e| e.to_string())?;
     let list = scripts.iter().map(|s| s.to_string()).collect::<Vec<_>>().join(",");
-    let o = std::process::Command::new(exe).args(["c20-config", mode, &steps.to_string(), &list]).env("PGMC_CHILD", "1").stderr(std::process::Stdio::null()).output().map_err(|e| e.to_string())?;
+    let o = std::process::Command::new(exe).args(["c20-config", mode, &steps.to_string(), &list]).env("PGMC_CHILD", "1").env("PGMC_WP_BOUND", WP_BOUND.load(Ordering::Relaxed).to_string()).env("PGMC_WP_CAP", if WP_BOUND.load(Ordering::Relaxed) > 2 { "20000" } else { "1500" }).env("PGMC_WP_WALL_S", if WP_BOUND.load(Ordering::Relaxed) > 2 { "60" } else { "8" }).stderr(std::process::Stdio::null()).output().map_err(|e| e.to_string())?;
     if !o.status.success() {
         return Err(format!("configuration process ended with {:?}", o.status));
     }
@@ -634,6 +814,7 @@ pub fn run(tier: Tier) -> i32 {
     let t = tier.thorough();
     let budget = Budget::new(if t { 14 * 60 } else { 50 });
     let mut acc = Acc::new();
+    WP_BOUND.store(if t { 3 } else { 2 }, Ordering::Relaxed);
     // (1) type-level gate
     let table = type_table();
     for (name, send, sync) in &table {
@@ -690,11 +871,39 @@ pub fn run(tier: Tier) -> i32 {
         if sc.len() * st <= 6 || (t && sc.len() == 2) {
             jobs.push(("baton", sc.clone(), *st));
         }
+        jobs.push(("wp", sc.clone(), *st));
     }
+    jobs.push(("wp-canary", vec![], 1));
     let nconf = jobs.len();
     let sub = par_run(&jobs, &budget, |(mode, scripts, steps), acc, _| {
         match run_config(mode, scripts, *steps) {
+            Ok(v) if v.get("machinery").is_some() => {
+                eprintln!("MACHINERY-ERROR: {} scheduler, scripts {:?} x {} steps: {}", mode, scripts, steps, v["machinery"]);
+                std::process::exit(2);
+            }
             Ok(v) if v.get("panic").is_none() => {
+                if *mode == "wp-canary" {
+                    acc.count("wp canary: lost updates found on a racy counter in the protected arena (must be > 0)", v["canary_lost_updates_found"].as_u64().unwrap_or(0));
+                    acc.count("wp canary: memory scheduling points", v["canary_memory_points"].as_u64().unwrap_or(0));
+                }
+                if *mode == "wp" {
+                    for ph in ["phase1", "phase2"] {
+                        let w = &v["wp"][ph];
+                        if w.is_null() {
+                            continue;
+                        }
+                        acc.count(&format!("wp {}: memory scheduling points granted (stores into / watched loads of the shared objects)", ph), w["mem_points"].as_u64().unwrap_or(0));
+                        acc.count(&format!("wp {}: executions abandoned (baton holder blocked / replay timeout)", ph), w["abandoned"].as_u64().unwrap_or(0));
+                        if w["capped"].as_bool().unwrap_or(false) {
+                            acc.notes.push(format!("wp {}: cap hit for scripts {:?} x {} steps after {} executions (lock-style blocking or a very large number of memory points); covered below the cap only", ph, scripts, steps, w["executions"]));
+                        }
+                    }
+                    acc.count("wp: distinct locations of the shared objects stored to during queries (summed over configurations)", v["stores_into_shared_objects"].as_u64().unwrap_or(0));
+                    acc.count("wp: faults outside any scheduled thread / in a stale region", v["unscheduled_faults"].as_u64().unwrap_or(0) + v["stale_faults"].as_u64().unwrap_or(0));
+                    if scripts == &vec![9usize, 9] {
+                        acc.sample(4, || json!({"scheduler": "wp", "threads": scripts.iter().map(|&i| OPS[i]).collect::<Vec<_>>(), "steps_per_thread": steps, "default_schedule": v["default_schedule"], "wp": v["wp"]}));
+                    }
+                }
                 let n = v["schedules"].as_u64().unwrap_or(0);
                 acc.states += n;
                 acc.transitions += v["steps"].as_u64().unwrap_or(0);
@@ -707,6 +916,7 @@ pub fn run(tier: Tier) -> i32 {
                     let op = scripts.get(thread).copied().unwrap_or(0);
                     let mut case = m.clone();
                     case["mode"] = json!(mode);
+                    case["wp_bound"] = json!(WP_BOUND.load(Ordering::Relaxed));
                     acc.violation(format!("schedule:{}:{}", mode, OPS[op].split(' ').next().unwrap_or("")), scripts.len() * 10 + steps, || {
                         (format!("[{}] thread {} running '{}' concurrently with {:?} observed {}, alone it observes {} (interleaving of steps: {})", mode, thread, OPS[op], scripts.iter().map(|&i| OPS[i]).collect::<Vec<_>>(), m["observed"], m["expected"], m["interleaving"]), case.clone())
                     });
@@ -765,7 +975,8 @@ pub fn run(tier: Tier) -> i32 {
     acc.count("free-running script executions on 2/4/8/16 OS threads (sampling, not part of the exhaustive claim)", free_runs);
     acc.sample(3, || json!({"type_table": table.iter().map(|(n, s, y)| json!({"type": n, "Send": s, "Sync": y})).collect::<Vec<_>>()}));
     let mut assumptions = vec![
-        "/repo/src contains no lock, atomic or cell: the only schedule points are the ones the harness places between API steps (before every call and every iterator step); interleavings inside one call are covered by Rust's Send/Sync guarantees (type gate) only".into(),
+        "scheduling points: shuttle / baton place them between API steps (before every call and every iterator step); the wp scheduler adds every store the subject executes into the shared objects (their pages are write-protected; the fault is the scheduling point) and, once a store was seen, every load of a stored-to location. On this tree the wp counters report how many such stores happen (0 = the shared objects are never written during queries, so interleavings inside one call cannot be observed by another thread and the step-level schedules are complete)".into(),
+        "not intercepted by wp: the subject's own statics / thread-locals (they live in the data segment, which cannot be protected without stopping the harness itself); state kept there is reached by the history pass and the baton scheduler at call granularity only".into(),
         "shuttle's std-compatible thread::spawn / yield_now / join are the scheduling points; objects are rebuilt in every execution".into(),
     ];
     assumptions.extend(source_scan());
@@ -773,10 +984,10 @@ pub fn run(tier: Tier) -> i32 {
         prop: "C20",
         tier,
         level: "model_checking",
-        rule: format!("type gate: Send and Sync of {} public handle / iterator / result types (run-time evaluated auto-trait table). Schedules: every configuration is explored twice, each time in a pristine subprocess: by shuttle's exhaustive DFS (tasks under shuttle's scheduler) and by a baton scheduler over real OS threads (all interleavings of the steps; thread-locals behave as in production); the threads share one mapper, one mapper-with-index, one parsed cache and one mapping; {} thread configurations: all {} ordered pairs of the 16 scripts x 3 steps{}; a scheduling point before every API call and every iterator step; oracle: every thread observes exactly what its script observes alone. History pass: back-to-back queries on one shared cache / mapper (one thread, and two OS threads taking turns) for pairs of class names that collide under ten common 32-bit fingerprints, for a mapping of 70000 classes queried at index distances 65535 / 65536, and for one method with 33..401 ranges in non-ascending file order whose lines are asked in seven sequences (ascending, descending, alternating, hopping; hits only and hits mixed with misses). states = schedules (complete executions); transitions = steps executed; distinct = distinct (configuration, schedule count)", table.len(), nconf, OPS.len() * OPS.len(), if t { ", all unordered pairs x 5 steps, all triples over 6 scripts x 2 steps, six triples x 3 steps" } else { ", three 3-thread configurations x 2 steps" }),
+        rule: format!("type gate: Send and Sync of {} public handle / iterator / result types (run-time evaluated auto-trait table). Schedules: every configuration is explored three times, each time in a pristine subprocess: by shuttle's exhaustive DFS (tasks under shuttle's scheduler), by a baton scheduler over real OS threads (all interleavings of the steps; thread-locals behave as in production), and by the wp scheduler (real OS threads; the shared objects are built in an arena whose pages are then write-protected, so that every store of the subject into them faults and becomes a scheduling point inside the call, single-stepped with the x86 trap flag; when stores were seen a second phase also makes every load of a stored-to location a point; stateless DFS over harness points + memory points with preemption bound {}; the default schedule is run twice and must produce the identical grant sequence; a replayed prefix that does not fit is a hard machinery error); the threads share one mapper, one mapper-with-index, one parsed cache and one mapping; {} thread configurations: all {} ordered pairs of the 16 scripts x 3 steps{}; a scheduling point before every API call and every iterator step; oracle: every thread observes exactly what its script observes alone. History pass: back-to-back queries on one shared cache / mapper (one thread, and two OS threads taking turns) for pairs of class names that collide under ten common 32-bit fingerprints, for a mapping of 70000 classes queried at index distances 65535 / 65536, and for one method with 33..401 ranges in non-ascending file order whose lines are asked in seven sequences (ascending, descending, alternating, hopping; hits only and hits mixed with misses). states = schedules (complete executions); transitions = steps executed; distinct = distinct (configuration, schedule count)", table.len(), if t { 3 } else { 2 }, nconf, OPS.len() * OPS.len(), if t { ", all unordered pairs x 5 steps, all triples over 6 scripts x 2 steps, six triples x 3 steps" } else { ", three 3-thread configurations x 2 steps" }),
         bounds: json!({"scripts": OPS, "configurations": nconf, "mapping": esc(MAPPING)}),
         assumptions,
-        trusted_base: vec!["rustc/std (auto traits)".into(), "shuttle 0.9.3 DFS scheduler".into()],
+        trusted_base: vec!["rustc/std (auto traits)".into(), "shuttle 0.9.3 DFS scheduler".into(), "pgmc/src/wp.rs (arena allocator, mprotect + SIGSEGV/SIGTRAP single-stepping, preemption-bounded DFS)".into(), "Linux mprotect / x86-64 trap flag semantics".into()],
     };
     finish(meta, acc, &budget, &|c| recheck(c))
 }
@@ -788,6 +999,9 @@ pub fn recheck(case: &Value) -> Vec<String> {
             let scripts: Vec<usize> = case["scripts"].as_array().map(|a| a.iter().map(|x| x.as_u64().unwrap_or(0) as usize).collect()).unwrap_or_default();
             let steps = case["steps"].as_u64().unwrap_or(3) as usize;
             let mode = case["mode"].as_str().unwrap_or("shuttle");
+            if let Some(b) = case["wp_bound"].as_u64() {
+                WP_BOUND.store(b as usize, Ordering::Relaxed);
+            }
             match run_config(mode, &scripts, steps) {
                 Ok(v) => {
                     if let Some(p) = v.get("panic").and_then(|p| p.as_str()) {
